@@ -87,6 +87,90 @@ type grepOpts struct {
 	Invert                             bool
 	SaveDiscarded                      bool
 	PairedMode                         string // "": unpaired input
+	Tax                                *miniTax
+	Restrict                           []int
+	Ignore                             []int
+	RequireRank                        string
+}
+
+// miniTax is a generated taxonomy: parent links, ranks, merged-id aliases.
+type miniTax struct {
+	Parent map[int]int
+	Rank   map[int]string
+	Alias  map[int]int // old id -> current id
+	IDs    []int
+}
+
+func (t *miniTax) resolve(id int) (int, bool) {
+	if _, ok := t.Parent[id]; ok {
+		return id, true
+	}
+	if n, ok := t.Alias[id]; ok {
+		return n, true
+	}
+	return 0, false
+}
+
+func (t *miniTax) inClade(id, clade int) bool {
+	for {
+		if id == clade {
+			return true
+		}
+		p := t.Parent[id]
+		if p == id {
+			return false
+		}
+		id = p
+	}
+}
+
+func (t *miniTax) hasRank(id int, rank string) bool {
+	for {
+		if t.Rank[id] == rank {
+			return true
+		}
+		p := t.Parent[id]
+		if p == id {
+			return false
+		}
+		id = p
+	}
+}
+
+func (t *miniTax) write(dir string) {
+	var nodes, names, merged strings.Builder
+	for _, id := range t.IDs {
+		fmt.Fprintf(&nodes, "%d\t|\t%d\t|\t%s\t|\t\t|\n", id, t.Parent[id], t.Rank[id])
+		fmt.Fprintf(&names, "%d\t|\ttaxon %d\t|\t\t|\tscientific name\t|\n", id, id)
+	}
+	olds := []int{}
+	for o := range t.Alias {
+		olds = append(olds, o)
+	}
+	sort.Ints(olds)
+	for _, o := range olds {
+		fmt.Fprintf(&merged, "%d\t|\t%d\t|\n", o, t.Alias[o])
+	}
+	os.MkdirAll(dir, 0755)
+	os.WriteFile(filepath.Join(dir, "nodes.dmp"), []byte(nodes.String()), 0644)
+	os.WriteFile(filepath.Join(dir, "names.dmp"), []byte(names.String()), 0644)
+	os.WriteFile(filepath.Join(dir, "merged.dmp"), []byte(merged.String()), 0644)
+}
+
+func drawMiniTax(t *simrt.Tape) *miniTax {
+	mt := &miniTax{Parent: map[int]int{1: 1}, Rank: map[int]string{1: "no rank"}, Alias: map[int]int{}, IDs: []int{1}}
+	ranks := []string{"family", "genus", "species", "no rank", "order"}
+	n := 5 + t.Choose(8)
+	for i := 0; i < n; i++ {
+		id := 10 + i
+		mt.Parent[id] = mt.IDs[t.Choose(len(mt.IDs))]
+		mt.Rank[id] = ranks[t.Choose(len(ranks))]
+		mt.IDs = append(mt.IDs, id)
+	}
+	for i := 0; i < t.Choose(3); i++ {
+		mt.Alias[900+i] = mt.IDs[t.Choose(len(mt.IDs))]
+	}
+	return mt
 }
 
 func (o grepOpts) args(dir string) []string {
@@ -123,6 +207,18 @@ func (o grepOpts) args(dir string) []string {
 	}
 	for _, e := range o.Expr {
 		a = append(a, "-p", e)
+	}
+	if o.Tax != nil {
+		a = append(a, "-t", filepath.Join(dir, "taxdump"))
+		for _, x := range o.Restrict {
+			a = append(a, "-r", fmt.Sprint(x))
+		}
+		for _, x := range o.Ignore {
+			a = append(a, "-i", fmt.Sprint(x))
+		}
+		if o.RequireRank != "" {
+			a = append(a, "--require-rank", o.RequireRank)
+		}
 	}
 	if o.Invert {
 		a = append(a, "-v")
@@ -218,6 +314,32 @@ func (o grepOpts) satisfies(r irec) bool {
 	}
 	for _, e := range o.Expr {
 		if !evalExpr(e, r) {
+			return false
+		}
+	}
+	if o.Tax != nil && (len(o.Restrict) > 0 || len(o.Ignore) > 0 || o.RequireRank != "") {
+		raw := 1 // a record without taxid belongs to the root
+		if v, ok := r.Annot["taxid"]; ok {
+			fmt.Sscan(v, &raw)
+		}
+		id, known := o.Tax.resolve(raw)
+		if len(o.Restrict) > 0 {
+			in := false
+			for _, c := range o.Restrict {
+				if known && o.Tax.inClade(id, c) {
+					in = true
+				}
+			}
+			if !in {
+				return false
+			}
+		}
+		for _, c := range o.Ignore {
+			if known && o.Tax.inClade(id, c) {
+				return false
+			}
+		}
+		if o.RequireRank != "" && !(known && o.Tax.hasRank(id, o.RequireRank)) {
 			return false
 		}
 	}
@@ -369,6 +491,32 @@ func c16Grep(rc *RunCtx, t *simrt.Tape, dir string, p parCfg) {
 	paired := t.Choose(3) == 2
 	var mates []Rec
 	o := drawGrepOpts(t, recs)
+	if t.Choose(4) == 3 {
+		// taxonomic restrictions on a generated taxonomy dump
+		o.Tax = drawMiniTax(t)
+		for i := range recs {
+			switch t.Choose(6) {
+			case 0: // no taxid: the root
+			case 1:
+				if len(o.Tax.Alias) > 0 {
+					recs[i].Annot["taxid"] = 900 // a merged (old) identifier
+				}
+			default:
+				recs[i].Annot["taxid"] = o.Tax.IDs[t.Choose(len(o.Tax.IDs))]
+			}
+		}
+		for k := t.Choose(3); k > 0; k-- {
+			o.Restrict = append(o.Restrict, o.Tax.IDs[t.Choose(len(o.Tax.IDs))])
+		}
+		for k := t.Choose(2); k > 0; k-- {
+			o.Ignore = append(o.Ignore, o.Tax.IDs[1+t.Choose(len(o.Tax.IDs)-1)])
+		}
+		if t.Choose(3) == 2 {
+			o.RequireRank = o.Tax.Rank[o.Tax.IDs[t.Choose(len(o.Tax.IDs))]]
+		}
+		o.Tax.write(filepath.Join(dir, "taxdump"))
+		rc.Probe("taxonomy_options")
+	}
 	ext := ".fasta"
 	text := fastaText
 	if fastq {
